@@ -20,7 +20,7 @@ LEVEL = "exploration"
 BUDGET_S = {"quick": 55, "thorough": 800}
 FLOOR = {"quick": 1000, "thorough": 15000}
 MUST_REACH = ("steps_judged", "fixpoints_judged", "exact_predictions", "path_collisions_checked", "sequences_run")
-RULE = ("7 seed ACLs (flat IOS, IOS grouped by remark prefix, grouped with port_nr != protocol_nr, NX-OS, with address-group members, with non-contiguous masks and "
+RULE = ("8 seed ACLs (flat IOS, IOS grouped by remark prefix, grouped with port_nr != protocol_nr, NX-OS, with address-group members, with non-contiguous masks and "
         "version-only names, numbered with duplicates) x operation sequences over an alphabet of 18 public operations "
         "(platform toggle, port_nr / protocol_nr toggles, resequence 10/10, 1/1, 0, group('= '), ungroup, sort, reverse, "
         "insert, append, pop, copy, Acl(**data()), re-parse, delete_shadow, ungroup_ports): quick = all sequences of length "
@@ -57,6 +57,9 @@ SEEDS = [
     {"name": "nc-names", "platform": "ios", "kwargs": {"version": "16.09.06"},
      "lines": ["permit tcp 10.0.0.0 0.0.3.3 any eq msrpc", "permit tcp 10.0.0.0 0.0.1.3 any eq 135",
                "permit udp any any eq ripv6 syslog", "permit tcp any any eq cmd", "deny 47 any 10.0.0.0 0.255.0.255"]},
+    {"name": "wide-nc", "platform": "ios", "kwargs": {},
+     "lines": ["remark = WIDE", "permit ip 10.0.0.0 0.255.85.170 any", "permit tcp 10.0.0.0 0.85.255.85 any eq 22", "remark = REST",
+               "deny ip any any"]},
     {"name": "numbered-dups", "platform": "ios", "kwargs": {},
      "lines": ["10 permit icmp any any", "20 permit tcp any any eq 25", "20 permit tcp any any eq 25", "30 remark dup", "30 remark dup",
                "40 permit icmp any any", "50 deny ip 10.0.0.0 0.255.255.255 any"]},
